@@ -209,7 +209,7 @@ func NewRun(k Knobs, seed int64, rep *monitor.Report, caseID string, trace io.Wr
 			gs = altSeed
 		}
 		gg := &groupGen{rng: rand.New(rand.NewSource(gs))}
-		gg.shape = pick(gg.rng, sim.ShapeSelector, sim.ShapeAffinity)
+		gg.shape = pick(gg.rng, sim.ShapeSelector, sim.ShapeAffinity, sim.ShapeAffinityExclude)
 		gg.memBound = gg.rng.Intn(3) == 0
 		run.G = append(run.G, gg)
 
@@ -423,7 +423,7 @@ func (run *Run) opLoad(gi int, forced string) {
 		}
 		shape := gg.shape
 		if r.Intn(4) == 0 {
-			shape = pick(r, sim.ShapeSelector, sim.ShapeAffinity)
+			shape = pick(r, sim.ShapeSelector, sim.ShapeAffinity, sim.ShapeAffinityExclude)
 		}
 		env.AddPod(gi, env.BuildPod(gi, c, m, shape))
 	}
